@@ -103,7 +103,15 @@ namespace jsoncons {
         }
         ~json_array() noexcept
         {
-            flatten_and_destroy();
+            // Flattening allocates a work list. If that fails, fall back to
+            // ordinary recursive destruction of whatever was not yet moved out.
+            JSONCONS_TRY
+            {
+                flatten_and_destroy();
+            }
+            JSONCONS_CATCH(...)
+            {
+            }
         }
 
         reference back()
@@ -244,7 +252,7 @@ namespace jsoncons {
         }
     private:
 
-        void flatten_and_destroy() noexcept
+        void flatten_and_destroy()
         {
             while (!data_.empty())
             {
